@@ -106,10 +106,10 @@ var grpcFacts = []gfact{
 		`([CSent true; CClosed; CGot 8; CEnd ODeadline; CHdr [(0, 1)]; CTrl []],
 		  [SEntered 3; SIncoming []; SSetH true; SSent true; SDone true])`},
 	{"handler_actions_after_the_end_reach_nobody",
-		"whatever the handler sets, sends or returns after the client's context has ended, the client sees none of it; its RecvMsg fails",
+		"whatever the handler sets, sends or returns after the client's context has ended, the client sees none of it; its SendHeader, SendMsg and RecvMsg fail",
 		Scenario{Shape: "bidi", Steps: []Step{{K: "CtxEnd"}, {K: "SendH", MD: md(0, 7)}, {K: "SetT", MD: md(1, 1)}, {K: "S2C", M: 4}, {K: "RecvEOF"}, retSt(5, 1)}},
 		`([CEnd OCancelled; CHdr []; CTrl []],
-		  [SEntered (-1); SIncoming []; SDone true; SRecvErr])`},
+		  [SEntered (-1); SIncoming []; SDone true; SSendH false; SSent false; SRecvErr])`},
 	{"headers_received_before_the_end_stay_visible",
 		"a header block the client has seen stays what Header() returns after the context has ended",
 		Scenario{Shape: "bidi", Steps: []Step{{K: "SendH", MD: md(0, 1)}, {K: "CHeader"}, {K: "CtxEnd", DL: true}, {K: "SetH", MD: md(1, 1)}, retOk(0)}},
